@@ -54,7 +54,9 @@ type WriteCase struct {
 
 var writeTreePool = []string{"main.go", "pkg/a.go", "pkg/sub/b.go", "docs/readme.md", "nested/dir/x.txt", "Makefile", "data/", "nested/.hidden", "spokfile.tmp", "spokfile.bak", ".spokfile.swp", "spokfile~"}
 var writeFlags = []string{"--show", "--vars", "--fmt", "--init", "--force", "--quiet", "--json", "--debug"}
-var safeCmds = []string{"echo hi", "true", "printf x", "echo {{.V}}", "echo a b  c", "test -f main.go", "echo done 1>&2", "printf 'working\rdone'"}
+var safeCmds = []string{"echo hi", "true", "printf x", "echo {{.V}}", "echo a b  c", "test -f main.go", "echo done 1>&2", "printf 'working\rdone'",
+	// what the shell spok embeds (a bash dialect) reads as tests and arithmetic, not as redirections
+	"[[ b > a ]] && echo yes", "if [[ {{.V}} > 1 ]]; then echo newer; fi", "echo $((4 > 3))", "[[ a < b ]] || echo no"}
 var invalidSources = map[string][]string{
 	"lexerr":   {"task build( {\n", "X := \"unterminated\n", "task t() {\n    echo hi\n", "$$$\n", "task t() -> {\n}\n"},
 	"parseerr": {"X :=\n", "X\n", "task t(\"a\" \"b\") -> (,", "task () -> (\n"},
@@ -97,6 +99,10 @@ func genWrite(t *rapid.T) WriteCase {
 				stmts = append(stmts, gen.Stmt{Kind: "assign", Name: "W" + string(rune('a'+i)), ValKind: "func", ValText: "join", Args: []gen.Arg{{Str: true, Text: "a"}, {Str: true, Text: "b"}}})
 			default:
 				name := []string{"build", "lint", "default", "check", "zz"}[i]
+				if rapid.IntRange(0, 2).Draw(t, "flaglike_name") == 0 {
+					// a task may be called what a flag or an action is called
+					name = []string{"init", "fmt", "vars", "show", "version"}[i]
+				}
 				st := gen.Stmt{Kind: "task", Name: name}
 				if rapid.Bool().Draw(t, "doc") {
 					st.HasDoc, st.Doc = true, " does "+name
